@@ -170,7 +170,7 @@ def model_render(cases):
 
 # ------------------------------------------------------------------ generators
 WORDS = ["a", "bb", "ccc", "item", "number", "x", "hello", "world", "longerword", "averyveryverylongword",
-         "hy-phen", "semi-detached", "e.g.", "1)", "[x]", "--", "a--b", "tab\there", "q?", "Zz"]
+         "hy-phen", "semi-detached", "e.g.", "1)", "[x]", "--", "a--b", "tab\there", "q?", "Zz", "http://host/a-long-path/to-some/page"]
 
 
 def rand_text(rng, maxwords=8, newlines=True):
